@@ -4,6 +4,7 @@ package core
 
 import (
 	"encoding/json"
+	"os/exec"
 	"fmt"
 	"hash/fnv"
 	"os"
@@ -103,6 +104,50 @@ type Check struct {
 	Post        func(ev map[string]interface{}) // optional: add check-specific coverage keys
 	// Prefix optionally fixes the first draws of run i (systematic sub-batches); nil = none.
 	Prefix func(tier string, i uint64) []uint64
+	// After runs once after a clean in-process batch (e.g. the race-detector phase in child
+	// processes). It may add coverage keys and report violations found outside the process.
+	After func(opt Options, cov map[string]interface{}) ([]ExtViolation, error)
+}
+
+// ExtViolation is a violation found by a child process for run RunIndex.
+type ExtViolation struct {
+	RunIndex uint64
+	Class    string
+	Msg      string
+}
+
+// RunStripe executes runs start, start+stride, ... (count of them) of a check in this
+// process, printing "RUN <i>" before each. Used by the race-detector child processes.
+func RunStripe(id, tier string, seed, start, stride, count uint64) int {
+	ch := Registry[id]
+	if ch == nil {
+		return 2
+	}
+	ff, _ := LoadFindings(filepath.Join(verifDir(), "known_findings.json"))
+	avoid := map[string]bool{}
+	if ff != nil {
+		avoid = ff.AvoidSet(id)
+	}
+	for k := uint64(0); k < count; k++ {
+		i := start + k*stride
+		fmt.Printf("RUN %d\n", i)
+		os.Stdout.Sync()
+		t := newRunTape(ch, tier, seed, i)
+		_, infra := runOnce(ch, &Ctx{T: t, Tier: tier, RunIndex: i, Avoid: avoid})
+		if infra != nil {
+			fmt.Fprintf(os.Stderr, "INFRASTRUCTURE ERROR: %v\n", infra)
+			return 2
+		}
+	}
+	fmt.Println("STRIPE-DONE")
+	return 0
+}
+
+func verifDir() string {
+	if v := os.Getenv("VERIF_DIR"); v != "" {
+		return v
+	}
+	return "/verif"
 }
 
 func newRunTape(ch *Check, tier string, seed uint64, i uint64) *tape.Tape {
@@ -593,6 +638,18 @@ func RunBatch(opt Options) int {
 		}
 	}
 
+	// phase run outside this process (race detector children)
+	extCov := map[string]interface{}{}
+	var ext []ExtViolation
+	if len(unknown) == 0 && ch.After != nil {
+		var err error
+		ext, err = ch.After(opt, extCov)
+		if err != nil {
+			fmt.Fprintf(os.Stderr, "INFRASTRUCTURE ERROR: %v\n", err)
+			return 2
+		}
+	}
+
 	// known findings lines
 	var keys []string
 	for k := range knownSeen {
@@ -667,6 +724,30 @@ func RunBatch(opt Options) int {
 		exit = 1
 	}
 
+	if exit == 0 && len(ext) > 0 {
+		e := ext[0]
+		t := newRunTape(ch, opt.Tier, opt.Seed, e.RunIndex)
+		out, _ := runOnce(ch, &Ctx{T: t, Tier: opt.Tier, RunIndex: e.RunIndex, WantScenario: true, Avoid: avoid})
+		rf := &ReplayFile{Property: ch.ID, Seed: opt.Seed, RunIndex: e.RunIndex, Tier: opt.Tier, Class: e.Class, Message: e.Msg, Tape: t.Used(), Blocks: t.Blocks(), OrigLen: t.Pos(), Avoid: avoidList(avoid)}
+		if out != nil {
+			rf.Scenario = out.Scenario
+			rf.TraceHash = fmt.Sprintf("%016x", out.TraceHash)
+		}
+		dir := filepath.Join(opt.VerifDir, "replays", ch.ID)
+		os.MkdirAll(dir, 0755)
+		p := filepath.Join(dir, fmt.Sprintf("%d-%d-%s.json", opt.Seed, e.RunIndex, e.Class))
+		b, _ := json.MarshalIndent(rf, "", " ")
+		if err := os.WriteFile(p, b, 0644); err != nil {
+			fmt.Fprintf(os.Stderr, "cannot write replay: %v\n", err)
+			return 2
+		}
+		fmt.Printf("violation class=%s run=%d: %s\n", e.Class, e.RunIndex, e.Msg)
+		fmt.Printf("VIOLATION property=%s replay=%s\n", ch.ID, p)
+		replayPaths = append(replayPaths, p)
+		exit = 1
+		unknown = append(unknown, vio{idx: e.RunIndex})
+	}
+
 	// evidence
 	wall := time.Since(start).Seconds()
 	cov := map[string]interface{}{
@@ -689,6 +770,9 @@ func RunBatch(opt Options) int {
 		"replays":             replayPaths,
 	}
 	for k, v := range a.counts {
+		cov[k] = v
+	}
+	for k, v := range extCov {
 		cov[k] = v
 	}
 	if len(a.samples) == 0 {
@@ -734,6 +818,26 @@ func Replay(path string, verbose bool) int {
 		fmt.Fprintf(os.Stderr, "unknown property %s\n", rf.Property)
 		return 2
 	}
+	if rf.Class == "data-race" && !RaceBuild {
+		// replay under the race detector
+		bin := filepath.Join(verifDir(), "bin", "visim-race")
+		cmd := exec.Command(bin, "replay", path)
+		cmd.Env = append(os.Environ(), "GORACE=halt_on_error=1 exitcode=66")
+		outb, _ := cmd.CombinedOutput()
+		code := cmd.ProcessState.ExitCode()
+		if code == 66 {
+			fmt.Printf("%s\n", firstLines(string(outb), 40))
+			fmt.Printf("violation class=data-race: the race detector reports conflicting accesses between session tasks\n")
+			fmt.Printf("VIOLATION property=%s replay=%s\n", rf.Property, path)
+			return 1
+		}
+		if code == 0 || code == 3 {
+			fmt.Printf("replay of %s did not reproduce a data race (tree changed?)\n", path)
+			return 3
+		}
+		fmt.Fprintf(os.Stderr, "race replay failed with exit code %d:\n%s\n", code, firstLines(string(outb), 40))
+		return 2
+	}
 	avoid := map[string]bool{}
 	for _, k := range rf.Avoid {
 		avoid[k] = true
@@ -752,6 +856,10 @@ func Replay(path string, verbose bool) int {
 		fmt.Printf("replay of %s did not reproduce (tree changed?)\n", path)
 		return 3
 	}
+	if rf.Class == "data-race" {
+		// the race detector would have ended the process with exit code 66
+		return 3
+	}
 	th := fmt.Sprintf("%016x", out.TraceHash)
 	fmt.Printf("violation class=%s step=%d: %s\n", out.V.Class, out.V.Step, out.V.Msg)
 	if out.V.Class != rf.Class {
@@ -762,4 +870,15 @@ func Replay(path string, verbose bool) int {
 	}
 	fmt.Printf("VIOLATION property=%s replay=%s\n", rf.Property, path)
 	return 1
+}
+
+// RaceBuild is set by the race-detector binary.
+var RaceBuild = false
+
+func firstLines(s string, n int) string {
+	l := strings.Split(s, "\n")
+	if len(l) > n {
+		l = l[:n]
+	}
+	return strings.Join(l, "\n")
 }
